@@ -104,7 +104,6 @@ UpstreamRecovers(u) == u \in down /\ down' = down \ {u} /\ UNCHANGED <<cfg, sys>
 \* analysis and asserted for every question of the table in every state.
 IsPriv(q) == q.k = "ptr" /\ q.c \in {"privknown", "privunknown"}
 IsLan(q)  == q.k = "a" /\ q.c \in {"lanknown", "lanunknown"}
-Public(c) == c.up.gen \cup c.fb.gen \cup UNION {s.v : s \in c.up.secs \cup c.fb.secs}
 Private(c) == PtrEff(c.ptr, sys).gen \cup UNION {s.v : s \in c.ptr.secs}
 
 QueryOK(loc, q, a) ==
@@ -115,14 +114,18 @@ QueryOK(loc, q, a) ==
     \* (b) never sent to an upstream that no matching section (or the general
     \* list) names
     /\ ~IsPriv(q) /\ ~IsLan(q) => a.may \subseteq NamedFor(cfg.up, q.n) \cup NamedFor(cfg.fb, q.n)
-    \* (b) a section that names upstreams keeps the general upstreams of its
-    \* list away from its names: if the most specific section is the only
-    \* one matching and it is not a "subdomains only" section for this very
-    \* name, only its upstreams (and fallback servers) may see the question
-    /\ ~IsPriv(q) /\ ~IsLan(q) =>
-         \A s \in cfg.up.secs :
-             (Matching(cfg.up, q.n) = {s} /\ s.v # {} /\ ~WildAt(cfg.up, q.n))
-                 => a.may \subseteq s.v \cup NamedFor(cfg.fb, q.n)
+    \* (b) "More specific domains take priority": a matching section than
+    \* which no matching section is more specific decides alone -- only its
+    \* upstreams (the general ones if it says "#"), and fallback servers, may
+    \* see the question; the upstreams of less specific sections and, if it
+    \* names upstreams, the general ones are kept away.  (Except for the very
+    \* domain of a "subdomains only" section, where the text is silent.)
+    /\ ~IsPriv(q) /\ ~IsLan(q) /\ ~WildAt(cfg.up, q.n) =>
+         \A s \in Matching(cfg.up, q.n) :
+             (\A t \in Matching(cfg.up, q.n) : Len(t.p.d) <= Len(s.p.d))
+                 => a.may \subseteq Named(cfg.up, s) \cup NamedFor(cfg.fb, q.n)
+    /\ ~IsPriv(q) /\ ~IsLan(q) /\ Matching(cfg.up, q.n) = {}
+         => a.may \subseteq cfg.up.gen \cup NamedFor(cfg.fb, q.n)
     \* (b) fallback servers see a question only after every selected upstream
     \* was asked and none of them responds
     /\ ~IsPriv(q) /\ ~IsLan(q) /\ a.may \ NamedFor(cfg.up, q.n) # {}
